@@ -2,9 +2,11 @@ package c05
 
 import (
 	"fmt"
+	"os"
 	"sort"
 	"strings"
 	"testing"
+	"time"
 
 	"github.com/insomniacslk/dhcp/dhcpv6"
 	"verif/harness/gen4"
@@ -34,6 +36,7 @@ func stripNum(s string) string {
 }
 
 func judge(r *mon.Rec, src string, code int, b []byte) ref6.Result {
+	r.Current(map[string]any{"wire": mon.HexBytes(b), "code": code, "src": src})
 	r.Eval(1)
 	var res ref6.Result
 	var got *tree.Node
@@ -117,7 +120,6 @@ func dedup(s []string) []string {
 	return out
 }
 
-
 func trunc(s string) string {
 	if len(s) > 400 {
 		return s[:400] + "…"
@@ -130,6 +132,9 @@ var alphabet = []byte{0x00, 0x01, 0x02, 0x03, 0x04, 0x08, 0x0c, 0x0e, 0xff}
 func TestCheck(t *testing.T) {
 	r := mon.New("C05")
 	defer r.Flush()
+	if os.Getenv("VERIF_REPLAY") == "" {
+		r.Watchdog(60 * time.Second)
+	}
 	typed = v6util.TypedCodes()
 	var rp replay
 	if mon.ReplayCase(&rp) {
